@@ -302,6 +302,20 @@ def case(ctx, rng):
             return
         if isinstance(r, tuple) and rng.random() < 0.3:
             absorb_variants(ctx, x, -1.0, 4, mb, r[1], wit)
+    # ---- the documented renorm option: not silently ignored (today it refuses)
+    if rng.random() < 0.05:
+        orn = run_truncated(ctx, x, "function", cutoff=0.1, cutoff_mode=4, max_bond=-1, absorb=None, renorm=1)
+        ctx.evaluated()
+        ctx.count("mode", "renorm")
+        if orn.ok:
+            # if it ever returns, the kept values must at least carry the full weight of the input
+            s_r = orn.value[1]
+            kept_w = sum(float(np.sum(np.asarray(v) ** 2)) for v in s_r.blocks.values())
+            tot_w = float(np.sum(alls**2))
+            if abs(kept_w - tot_w) > 1e-9 * tot_w:
+                ctx.violation("renorm-ignored", f"svd_truncated(renorm=1) returned singular values of squared weight {kept_w}, input {tot_w}: the option was ignored", wit)
+        elif not isinstance(orn.exc, NotImplementedError):
+            ctx.violation(f"renorm-raises-{orn.excname}", repr(orn.exc), wit)
 
 
 def run(ctx):
